@@ -17,3 +17,121 @@ Proof.
 Qed.
 
 Print Assumptions memoryAdaptive_CalculateAllowedTokens_ok.
+
+(* ------------------------------------------------------------------------------------------ *)
+(* Warm-up calculator (core/flow/tc_warm_up.go), regenerated on every run:
+     warmup_New                     NewWarmUpTrafficShapingCalculator: the fields of the struct it
+                                    builds (threshold, period, cold factor after defaulting,
+                                    warningToken, maxToken, slope, storedTokens, lastFilledTime)
+     warmup_CalculateAllowedTokens  the allowed-token curve; the call of syncToken is action 10 with
+                                    the previous-window QPS, the bucket is loaded after it (`stored`)
+     warmup_coolDownTokens          the refill arithmetic (atomic loads enter as stored / last_filled)
+     warmup_syncToken               once per aligned second: CAS (1, [old; new]), Add (2, [delta],
+                                    result `added`), Store of the bucket (3, [v]), Store of the fill
+                                    time (4, [v]) in program order; coolDownTokens inlined
+   Each is, for ALL inputs, the function of Model/WarmUp.v the C11 warm-up theorems are about. *)
+From Coq Require Import List.
+From SG Require Import Model.WarmUp.
+Import ListNotations.
+
+Ltac split_ifs :=
+  repeat match goal with
+         | |- context [if ?c then _ else _] => destruct c eqn:?; cbn [orb andb negb]
+         end; try reflexivity; try discriminate.
+
+(* math.Nextafter(x, math.MaxFloat64) of the translator's preamble is the model's *)
+Lemma leaf_nextafter_max_ok x : leaf_nextafter_max x = go_nextafter_max x.
+Proof. reflexivity. Qed.
+
+(* constructor: every field of the struct it builds is the model's configuration *)
+Theorem warmup_New_ok T period cf0 :
+  warmup_New T cf0 period
+  = let c := mk_wcfg T period cf0 in
+    (w_thr c, w_period c, w_cf c, w_warning c, w_max c, w_slope c, 0, 0).
+Proof.
+  unfold warmup_New, mk_wcfg, default_cold_factor. cbv zeta.
+  cbn [w_thr w_period w_cf w_warning w_max w_slope].
+  destruct (cf0 <=? 1); split_ifs.
+Qed.
+
+(* CalculateAllowedTokens: syncToken(previous QPS), then the curve on the loaded bucket *)
+Theorem warmup_CalculateAllowedTokens_ok c qps tokens :
+  warmup_CalculateAllowedTokens (w_slope c) (w_thr c) (w_warning c) qps tokens
+  = (allowed_of c tokens, [(10, [LF qps])]).
+Proof.
+  unfold warmup_CalculateAllowedTokens, allowed_of, wi. rewrite !leaf_nextafter_max_ok. cbv zeta.
+  rewrite !Z.geb_leb.
+  destruct (tokens <? 0); split_ifs.
+Qed.
+
+(* ... which is the model's calc when the QPS is the previous window's and the bucket is the one
+   syncToken leaves *)
+Corollary warmup_CalculateAllowedTokens_calc c st now :
+  let q := prev_qps (passes st) now in
+  warmup_CalculateAllowedTokens (w_slope c) (w_thr c) (w_warning c) q (stored (sync_token c st now q))
+  = (snd (calc c st now), [(10, [LF q])]).
+Proof. cbv zeta. rewrite warmup_CalculateAllowedTokens_ok. reflexivity. Qed.
+
+(* coolDownTokens *)
+Theorem warmup_coolDownTokens_ok c st cur qps :
+  warmup_coolDownTokens (w_cf c) (w_max c) (w_thr c) (w_warning c) cur (last_filled st) qps (stored st)
+  = cool_down c st cur qps.
+Proof.
+  unfold warmup_coolDownTokens, cool_down, wi, mi. cbv zeta.
+  destruct (stored st <? i64 (w_warning c)) eqn:E.
+  - split_ifs.
+  - assert (H : (i64 (w_warning c) <=? stored st) = true) by (apply Z.leb_le; apply Z.ltb_ge in E; lia).
+    rewrite H. split_ifs.
+Qed.
+
+(* syncToken: the recorded atomic operations, replayed in order on (storedTokens, lastFilledTime) *)
+Definition apply_act (s : Z * Z) (a : leaf_act) : Z * Z :=
+  match a with
+  | (1, [LZ old; LZ new]) => if fst s =? old then (new, snd s) else s   (* CompareAndSwapInt64(&storedTokens) *)
+  | (2, [LZ d]) => (i64 (fst s + d), snd s)                              (* AddInt64(&storedTokens) *)
+  | (3, [LZ v]) => (v, snd s)                                            (* StoreInt64(&storedTokens) *)
+  | (4, [LZ v]) => (fst s, v)                                            (* StoreUint64(&lastFilledTime) *)
+  | _ => s
+  end.
+
+(* the time is a uint64; in a sequential run the CAS succeeds and the Add returns the value it
+   leaves in the bucket *)
+Theorem warmup_syncToken_ok c st now qps : in_u64 now ->
+  let cur := now - now mod 1000 in
+  let added := i64 (cool_down c st cur qps + go_i64_of_f (- qps)%float) in
+  let tr := warmup_syncToken added (w_cf c) (w_max c) (w_thr c) (w_warning c) true (last_filled st) now qps (stored st) in
+  let st' := sync_token c st now qps in
+  fold_left apply_act tr (stored st, last_filled st) = (stored st', last_filled st').
+Proof.
+  intros Hn. cbv zeta.
+  assert (Hc : u64 (now - now mod 1000) = now - now mod 1000).
+  { apply u64_id. unfold in_u64 in *. pose proof (Z.mod_pos_bound now 1000 ltac:(lia)).
+    pose proof (Z.mod_le now 1000 ltac:(lia) ltac:(lia)). lia. }
+  unfold warmup_syncToken, sync_token. cbv zeta. rewrite Hc.
+  destruct (now - now mod 1000 <=? last_filled st); [reflexivity|].
+  (* the inlined coolDownTokens is cool_down *)
+  pose proof (warmup_coolDownTokens_ok c st (now - now mod 1000) qps) as Hcd.
+  unfold warmup_coolDownTokens in Hcd. cbv zeta in Hcd. rewrite Hcd. clear Hcd.
+  set (nv := cool_down c st (now - now mod 1000) qps).
+  destruct (i64 (nv + go_i64_of_f (- qps)) <? 0) eqn:E;
+    cbn [fold_left apply_act fst snd]; rewrite ?Z.eqb_refl; cbn [fst snd]; reflexivity.
+Qed.
+
+(* the second time in the same aligned second nothing is touched *)
+Theorem warmup_syncToken_not_due c st now qps added cas_ok : in_u64 now ->
+  (now - now mod 1000 <=? last_filled st) = true ->
+  warmup_syncToken added (w_cf c) (w_max c) (w_thr c) (w_warning c) cas_ok (last_filled st) now qps (stored st) = [].
+Proof.
+  intros Hn H. unfold warmup_syncToken. cbv zeta.
+  assert (Hc : u64 (now - now mod 1000) = now - now mod 1000).
+  { apply u64_id. unfold in_u64 in *. pose proof (Z.mod_pos_bound now 1000 ltac:(lia)).
+    pose proof (Z.mod_le now 1000 ltac:(lia) ltac:(lia)). lia. }
+  rewrite Hc, H. reflexivity.
+Qed.
+
+Print Assumptions warmup_New_ok.
+Print Assumptions warmup_CalculateAllowedTokens_ok.
+Print Assumptions warmup_CalculateAllowedTokens_calc.
+Print Assumptions warmup_coolDownTokens_ok.
+Print Assumptions warmup_syncToken_ok.
+Print Assumptions warmup_syncToken_not_due.
